@@ -683,7 +683,36 @@ def run_impl(sc, weights='patch', split=False, reduced=False):
             mmod.Maintainer.create_work_order = orig_create
             for o in res_objs:
                 o._reserved_resources = {}
+    if obs and not reduced and weights == 'patch':
+        obs[-1]['budget_probe'] = budget_probe(sc)
     return flat, obs
+
+
+def budget_probe(sc):
+    """An experiment on the implementation only (the scripted callbacks of the model cannot reconfigure other devices): a source with
+    a finite budget whose budget is cut from a receive callback of the device that is just taking a part from it.  Whatever the
+    numbers, the source must not have supplied more parts than its budget allows afterwards (C02, last clause)."""
+    from simprocesd.model import System
+    from simprocesd.model.factory_floor import Source, PartHandler, Sink
+    b = 2 + sc['seed'] % 5
+    k = 1 + (sc['seed'] // 5) % b          # the cut happens while the k-th part is handed over
+    cut = -(1 + (sc['seed'] // 25) % (b + 3))
+    with contextlib.redirect_stdout(io.StringIO()):
+        system = System()
+        src = Source('src', cycle_time=1, starting_parts=b)
+        h = PartHandler('h', upstream=[src], cycle_time=(sc['seed'] % 3) / 2)
+        snk = Sink('snk', upstream=[h])
+        seen = []
+
+        def cb(dev, part):
+            seen.append(1)
+            if len(seen) == k:
+                src.adjust_part_count(cut)
+        h.add_receive_part_callback(cb)
+        system.simulate(4 * b + 8, print_summary=False)
+    mx = src._max_produced_parts
+    return dict(budget=b, k=k, cut=cut, produced=src.produced_parts, max=None if mx == float('inf') else int(mx),
+                remaining=src.remaining_parts, received=snk.received_parts_count)
 
 
 def item_info(W, it):
